@@ -136,7 +136,7 @@ func (r Ref) MarshalJSON() ([]byte, error) {
 	str := r.String()
 	if str == "" {
 		if r.IsRoot() {
-			return []byte(`{"$ref":""}`), nil
+			return []byte(`{"$ref":"#"}`), nil
 		}
 		return []byte("{}"), nil
 	}
